@@ -8,19 +8,22 @@ HERE = os.path.dirname(os.path.dirname(os.path.abspath(__file__)))
 CLAIMED = {
     # id: (technique, level text, level note, design ref)
     "C01": ("bounded-exhaustive runtime oracle: independent index-map monitor on real calls",
-            "Every shape of the tier's bounded space x every mode/skip/ordered matricize split x 10 dtypes x 6 memory layouts is "
+            "Every shape of the tier's bounded space x every mode/skip/ordered matricize split x 10 dtypes x 6 memory layouts (plus sampled splits of "
+            "orders 6-10, reused shape lists and repeat calls after in-place edits of the same array object) is "
             "executed on the real functions and compared bit-for-bit with an independently computed index map; because the "
             "operations are data-oblivious this decides the property for all values of those shapes. Beyond the bound: nothing.",
             "Trusted: NumPy indices/scatter, CPython. NumPy backend only.", "DESIGN.md §2 C01"),
     "C02": ("runtime formula monitor on dispatched tenalg calls + cross-backend differential",
             "Seeded workloads over enumerated option classes call the real dispatched functions under both tenalg backends; each "
             "result is compared with an explicit einsum index formula under a backward-error bound and the two backends with each "
-            "other. Held on the sampled cases only (orders 1-4, sizes 1-4).",
+            "other; operands of mixed dtypes, modes counted from the end, narrow index dtypes and weighting masks included. Held on the "
+            "sampled cases only (orders 1-4, sizes 1-4).",
             "Trusted: numpy.einsum with explicit subscripts. Restrictions listed in evidence.assumptions.", "DESIGN.md §2 C02"),
     "C03": ("runtime formula monitor on conversions/views of factorised tensors; rejection monitor for invalid sets",
             "Seeded factor sets for six formats (tuple and wrapper form, both tenalg backends) are converted by the real code and "
             "compared with the defining contraction; every unfolding/vec/matrix/slice view, wrapper shape/rank and factor-based "
-            "norm is compared with the reference dense tensor; 15 kinds of invalid sets must raise. Sampled, small sizes.",
+            "norm (CP, Tucker, TT, TR wrappers) is compared with the reference dense tensor, also after a core of a wrapper was replaced by item "
+            "assignment; 16 kinds of invalid sets must raise ValueError/IndexError. Sampled, small sizes.",
             "Trusted: numpy.einsum, explicit index-map unfolding.", "DESIGN.md §2 C03"),
     "C04": ("runtime before/after monitor: dense reconstruction preserved + canonical-form predicates on real transforms",
             "Seeded factorised tensors with the degenerate classes the statement names are pushed through each real transform; the "
@@ -34,7 +37,8 @@ CLAIMED = {
             "Trusted: numpy.linalg.svd in float64.", "DESIGN.md §2 C05"),
     "C12": ("runtime postcondition monitor on prox returns: reference minimiser, KKT/feasibility, idempotence, firm non-expansiveness, competitor search",
             "Seeded inputs in eight value classes x 14 operators x parameters; every returned point is judged against an independent "
-            "exact reference (closed forms, sort-based simplex, PAVA, exact unimodal regression, LAPACK SVD) and against random "
+            "exact reference (closed forms, sort-based simplex, PAVA, exact unimodal regression, LAPACK SVD), for every memory layout, "
+            "read-only and integer-dtype presentation of the input, and against random "
             "feasible competitors; projections re-applied; convex operators tested for firm non-expansiveness. Sampled, sizes <= 8x4.",
             "Trusted: the harness' reference algorithms (cross-checked by the competitor search), numpy.linalg.", "DESIGN.md §2 C12"),
     "C13": ("runtime KKT-certificate monitor on solver returns + objective gap to an independent NNLS reference",
@@ -58,13 +62,16 @@ CLAIMED = {
             "Trusted: exhaustive enumeration of matchings, NumPy definitions.", "DESIGN.md §2 C20"),
     "C06": ("iterate recorders (deterministic prefix runs + deep-copying callbacks) with from-scratch error recomputation",
             "For each seeded (algorithm, data class, rank, option set) configuration the real algorithm is run with n_iter_max=1..K, "
-            "once more stopped by its tolerance, and (where offered) with a callback that deep-copies the iterate; every reported "
+            "once more stopped by its tolerance (and capped exactly at the sweep where the tolerance fires), masked CP-ALS included, and (where "
+            "offered) with a callback that deep-copies the iterate; a quarter of the runs go through the estimator classes, an eighth with "
+            "verbose output; every reported "
             "value is compared (on squares, absolute-value scale) with the independently recomputed error of the iterate it belongs "
             "to; lists must be prefixes of each other and have one value per sweep. 11 algorithms, orders 2-4, sizes 2-6, ranks 1-3.",
             "Trusted: independent einsum reconstructions. Masked variants excluded (not in the statement).", "DESIGN.md §2 C06"),
     "C07": ("iterate recorders (prefix runs, hals_nnls callback, re-fitted regressors) with from-scratch objective recomputation and a conditioning guard",
             "For every consecutive pair of sweeps of CP-ALS (plain/normalised/line search/ridge), HALS CP, HOOI, PARAFAC2 (+-nn, +-line search), "
-            "TR-ALS, CMTF, hals_nnls and the CP/Tucker regressors the objective is recomputed independently and must not rise beyond "
+            "TR-ALS, CMTF, masked CP-ALS (observed misfit), PARAFAC2 warm starts, hals_nnls and the CP/Tucker regressors the objective is "
+            "recomputed independently and must not rise beyond "
             "rounding slack when every block normal matrix has cond <= 1e6; unpenalised reported sequences must be non-increasing. "
             "Sampled; skipped (ill-conditioned) pairs are counted and capped at 35%.",
             "Trusted: independent reconstructions; the measurable definition of 'well conditioned'.", "DESIGN.md §2 C07"),
@@ -78,7 +85,8 @@ CLAIMED = {
             "Seeded tensors (generic, exactly low multilinear/TT rank, rank-deficient, integer; orders 2-5) x rank vectors from all-ones "
             "to beyond the mode sizes x exact SVD methods x HOOI sweeps x every TR start mode; the squared error of the real "
             "decomposition must be ~0 when no tail is discarded, at most the sum of discarded tails and at least the largest single "
-            "tail (using the returned ranks), and returned ranks never exceed requested ones. Sampled.",
+            "tail (using the returned ranks), and returned ranks never exceed requested ones. Data in extreme units, complex data and a few "
+            "large unfoldings (hundreds of rows and columns) included. Sampled.",
             "Trusted: numpy.linalg.svd (float64) of explicit unfoldings; the Tucker/TT quasi-optimality theorems.", "DESIGN.md §2 C09"),
     "C10": ("runtime postcondition monitor (>= 0, no NaN, no slack) on returned factors/weights/core + live monitors on the inner NNLS solvers",
             "Seeded configurations of the six non-negative algorithms on signed / non-negative / sparse / integer / all-negative tensors "
